@@ -112,6 +112,27 @@ Assign(n, x) ==
 
 SetAuto(b) == auto' = b /\ evald' = {} /\ raised' = FALSE /\ UNCHANGED <<gvars, val, flag, slots, dirty>>
 
+\* Node.flag_outdated() on a node of a built model (public low-level API; the mechanism the value setter uses): the
+\* node and its recursive outputs are flagged; nothing is evaluated, whatever the auto-update switch says
+FlagOutdated(n) ==
+  /\ kind[n] # "v"                        \* (a value node's flag_outdated does nothing)
+  /\ LET S == {m \in Node : (m = n \/ m \in Desc(n)) /\ kind[m] = "c"} IN
+     /\ flag' = [m \in Node |-> m \in S \/ flag[m]]
+     /\ dirty' = [m \in Node |-> m \in S \/ dirty[m]]
+  /\ evald' = {} /\ raised' = FALSE /\ UNCHANGED <<gvars, val, auto, slots>>
+
+\* Node.update() on a single caching node of a built model (public low-level API), as coded: the node is evaluated
+\* from its inputs *as they are* and reports itself up to date afterwards.  InputsUpToDate(n) is the precondition
+\* under which this keeps the cache coherent (deviation G8: it is not checked by the code)
+InputsUpToDate(n) == \A m \in Ins(n) : ~Outd(flag)[m]
+NodeUpdate(n) ==
+  /\ kind[n] = "c"
+  /\ LET x == App(n, [i \in 1..Len(inp[n]) |-> Eff(val)[inp[n][i]]]) IN
+     IF x = ErrVal THEN raised' = TRUE /\ evald' = {} /\ UNCHANGED <<val, flag, dirty>>
+     ELSE /\ val' = [val EXCEPT ![n] = x] /\ flag' = [flag EXCEPT ![n] = FALSE]
+          /\ dirty' = [dirty EXCEPT ![n] = FALSE] /\ evald' = {n} /\ raised' = FALSE
+  /\ UNCHANGED <<gvars, auto, slots>>
+
 \* save_model / load_model round trip (a crash point anywhere in a history): the model read back is in the same
 \* state - values, pending updates, the auto-update switch - and nothing is evaluated; states saved earlier with
 \* `Model.state` can still be restored into it
